@@ -41,6 +41,14 @@
 (*                   without an earlier violation                                             *)
 (* Store faults injected by the driver are not events: whatever a call does when a store      *)
 (* operation fails, its result must satisfy the same clauses.                                 *)
+(* Lease traces (d = "node:<wiring>:lease", driven in virtual time): between the events any   *)
+(* number of renew periods may have passed and any renewal of a holder may have failed with a *)
+(* transient store error (never two in a row) - neither is an event: a node that has not      *)
+(* released its id and has not crashed keeps it OUTSTANDING however long the history is, so a *)
+(* lease that was lost on the way (heartbeat ended, renewed too short, renewed elsewhere)     *)
+(* shows as Duplicate (":after-expiry" when the driver saw the claim key go) at the next      *)
+(* allocation that is handed the id - every lease trace ends with an allocation by a fresh    *)
+(* node, four fault-free periods and another allocation by a fresh node.                      *)
 EXTENDS VLib
 
 VARIABLES d, scope, taken,
